@@ -85,7 +85,9 @@ func drawInt(rt *rapid.T, label string) int {
 }
 
 func drawMem(rt *rapid.T, label string) int64 {
-	return rapid.SampledFrom([]int64{0, 1, 64, 256, 1000, 4096, math.MaxInt64, math.MaxInt64}).Draw(rt, label)
+	return rapid.SampledFrom([]int64{0, 1, 64, 256, 1000, 1000, 4096, 4096, math.MaxInt64, math.MaxInt64, math.MaxInt64, math.MaxInt64,
+		// finite limits whose product with (1+priority) does not fit an int64
+		math.MaxInt64 - 1, math.MaxInt64 - 255, 1<<62 + 77, 1<<56 + 129, 1<<55 + 1}).Draw(rt, label)
 }
 
 func drawLim(rt *rapid.T, label string) lim {
@@ -795,6 +797,28 @@ func (w *world) reserve(rt *rapid.T) {
 	}
 	size := rapid.SampledFrom([]int64{0, 1, 1, 16, 63, 64, 65, 255, 256, 257, 999, 1000, 1001, 4096, 1 << 40}).Draw(rt, "size")
 	prio := uint8(rapid.SampledFrom([]int{0, 1, 101, 152, 203, 254, 255}).Draw(rt, "prio"))
+	// no scope, limited or not, is driven past what an int64 can count (the manager does not
+	// claim anything there): room is what the roots can still take
+	room := math.MaxInt64 - 1 - w.m.usageOf(sSystem).mem - w.m.usageOf(sALSystem).mem
+	if !t.dead() && room > 0 && rapid.IntRange(0, 3).Draw(rt, "edge") == 0 && w.memFits(t, 0, prio) && !w.memFits(t, room, prio) {
+		// the largest reservation the model still admits here at this priority, and its neighbours
+		lo, hi := int64(0), room
+		for hi-lo > 1 {
+			if mid := lo + (hi-lo)/2; w.memFits(t, mid, prio) {
+				lo = mid
+			} else {
+				hi = mid
+			}
+		}
+		size = max(0, lo+rapid.SampledFrom([]int64{-1, 0, 0, 1, 1}).Draw(rt, "edgeoff"))
+		w.label("reserve:at-threshold")
+		if lo > 1<<50 {
+			w.label("reserve:at-threshold:huge")
+		}
+	}
+	if size > room {
+		size = 0
+	}
 	want := !t.dead() && w.memFits(t, size, prio)
 	err := w.withScope(t, func(s network.ResourceScope) error { return s.ReserveMemory(int(size), prio) })
 	w.step(fmt.Sprintf("Reserve(%s,%d,prio%d)=%v", t.name(), size, prio, err == nil))
